@@ -14,13 +14,13 @@ EXPLORER = "E1"
 RULE = ("E1: same model spaces as C01/C02; every non-empty query set x every disjoint evidence set/order/state with P(e)>0 x "
         "virtual evidence (0-1) x elimination_order {MinFill, MinNeighbors, MinWeight, WeightedMinFill, None, explicit "
         "permutations} for VariableElimination.map_query, BeliefPropagation.map_query (connected models), Markov networks "
-        "(incl. duplicated equal factors) for the elimination engine, BayesianNetwork.predict on frames holding every admissible evidence row (plus a duplicate row) for every column subset. "
+        "(incl. duplicated equal factors) for the elimination engine, BayesianNetwork.predict on frames holding every admissible evidence row (plus a duplicate row) for every column subset (and, on 5-node classes with per-variable state names under rotating relabelings, with four missing variables). "
         "oracle: keys == requested variables, values are state names, reference posterior of the returned assignment >= "
         "max - 1e-9 (ties free). non-trivial = distinct (model, query, evidence) whose maximiser is unique and differs from "
         "the component-wise maximiser of the marginals or from the prior MAP")
 BOUNDS = {"quick": "core: the isomorphism classes of DAGs n<=3 (relabelings are a separate axis), binary x 2-element alphabet; families with cards {(2,3,2),(3,2,2),(1,2,3)} + virtual evidence; "
-                   "31 iso classes n=4; Markov: all connected graphs n<=4 x 4 layouts; labelings at deviation bound 1",
-          "thorough": "3-element alphabet core; all 543 DAGs n=4; all styles x relabelings"}
+                   "31 iso classes n=4; Markov: all connected graphs n<=4 x 4 layouts; labelings at deviation bound 1; predict with 4 missing variables on every 10th 5-node class x 3 name sets",
+          "thorough": "3-element alphabet core; all 543 DAGs n=4; all styles x relabelings; predict with 4 missing variables on every 2nd 5-node class"}
 EXHAUSTIVE = {"quick": True, "thorough": True}
 ASSUMPTIONS = ["P(evidence)>0 decided by the reference", "ties between maximisers are free"]
 
@@ -52,6 +52,16 @@ def groups(tier, seed):
             for lay in LAYOUTS:
                 for cv in ([(2,) * n] if tier == "quick" else [(2,) * n, (2, 3, 2, 2)[:n]]):
                     out.append({"kind": "mn", "n": n, "edges": [list(x) for x in e], "card": list(cv), "layout": lay, "lab": ["str", None, "def"]})
+    # predict with FOUR missing variables: 5-node classes, state names that differ per variable, name sets x rotating relabelings
+    # (which column ends up under which name depends on container orders inside predict; relabelings vary them)
+    c5 = iso_classes(5)
+    step = 10 if tier == "quick" else 2
+    p5 = list(permutations(range(5)))
+    for i, e in enumerate(c5[seed % step::step]):
+        for j, ns in enumerate(("str", "multi", "int")):
+            perm = list(p5[(7 * i + 41 * j + 13 * seed) % len(p5)])
+            for d in family_descs(5, [e], [(2, 3, 2, 2, 3)], fams=((1, 2, 1),), fps=()):
+                out.append({"kind": "bn", "bn": d, "lab": [ns, perm, "str"], "virt": 0, "qmax": None, "emax": None, "predict_only": 1})
     return out
 
 
@@ -117,6 +127,10 @@ def _bn(st, g, tier, only=None):
     st.states += 1
     connected = _moral_connected(ref)
     first = True
+    if g.get("predict_only"):
+        if only is None:
+            _predict(st, g, ref, lab, joint, model, kmax=g["predict_only"])
+        return
     for qu in questions(ref, joint, g["qmax"], g["emax"], True, g["virt"]):
         q, e, virt, post = qu["q"], qu["e"], qu["virt"], qu["post"]
         vals = sorted(post.table.values(), reverse=True)
@@ -158,12 +172,14 @@ def _moral_connected(ref):
     return is_connected(ref.n, [tuple(e) for e in G(ref.n, ref.edges()).moral_edges()])
 
 
-def _predict(st, g, ref, lab, joint, model, only=None):
+def _predict(st, g, ref, lab, joint, model, only=None, kmax=None):
     import pandas as pd
 
     if g["lab"][2] in ("tuple",) or ref.n < 2:
         return
-    for sub in subsets(range(ref.n)):
+    if kmax is None:
+        kmax = g.get("predict_only")
+    for sub in subsets(range(ref.n), kmax):
         if not sub or len(sub) == ref.n:
             continue
         rows = [dict(zip(sub, s)) for s in product(*[range(ref.card[v]) for v in sub])]
